@@ -208,7 +208,9 @@ class Oracle:
             lo = rd.last if rd.last is not None else rd.lower
             if lo is not None:
                 if i <= lo and rd.last is None:
-                    self.flag('reader-behind-start', f'{who}: record {i} delivered, position was after {lo}')
+                    # after a name was used AGAIN for another file (known finding: a restarted writer below an externally deleted newest name) a saved byte offset points into
+                    # the wrong file: what is read from there is a fragment, not a record of the list model
+                    self.flag('reader-behind-start' + (':name-regressed' if any(self.regressed.values()) else ''), f'{who}: record {i} delivered, position was after {lo}')
                 sk = [j for j in range(lo + 1, i) if self.linked(j)]
                 if sk: self.flag('reader-skip-on-disk' + self.reg(sk), f'{who}: records {sk[:5]} are on disk, unread, and were passed over (next delivered {i})')
             if c14 and who == 'r':
